@@ -175,6 +175,19 @@ def gen_case(rng, complete=None, with_mev=None, size=None):
     for t in terms[1:]:
         util = ['+', util, t]
     util = ['/', util, ['c', 4.0]]
+    # keep |V| <= 50 on every (individual, alternative): the Float model computes the unshifted
+    # log-sum-exp, which must not overflow (the engine shifts by the maximum)
+    vmax = 0.0
+    for r, irow in enumerate(irows):
+        for vals in values:
+            env = {c: irow[j] for j, c in enumerate(icols)}
+            env[choice_col] = float(choices[r])
+            env.update({c: vals[j] for j, c in enumerate(cols)})
+            for nm, f in combined:
+                env[nm] = eval_formula(f, env)
+            vmax = max(vmax, abs(eval_formula(util, env)))
+    if vmax > 50.0:
+        util = ['/', util, ['c', float(2 ** math.ceil(math.log2(vmax / 50.0)))]]
     share = rng.random() < 0.5 and not clash_pairs([id_col] + cols + [c[0] for c in combined])
     return {
         'share': share,
